@@ -133,7 +133,45 @@ impl<'a> Ent<'a> {
     }
     /// 32-bit value mixture: boundary values, boundary +/- small, single bits, uniform
     pub fn val32(&mut self) -> u32 {
-        match self.below(8) {
+        match self.below(12) {
+            8 => {
+                // a run of ones (bit field mask) or its complement
+                let len = 1 + self.below(31);
+                let pos = self.below(33 - len);
+                let m = (((1u64 << len) - 1) as u32) << pos;
+                if self.chance(1, 2) { m } else { !m }
+            }
+            9 => {
+                // repeated patterns: all bytes equal, both halves equal, byte-swapped halves
+                let x = self.u32();
+                match self.below(4) {
+                    0 => (x & 0xff) * 0x0101_0101,
+                    1 => (x & 0xffff) * 0x0001_0001,
+                    2 => (x & 0xffff) << 16 | (x & 0xffff).swap_bytes() >> 16,
+                    _ => (x & 0xffff) << 16 | (!x & 0xffff),
+                }
+            }
+            10 => {
+                // one half (or one byte) at a boundary, the rest random: carries between the parts
+                let x = self.u32();
+                let h = self.pick(&[0u32, 1, 0x7fff, 0x8000, 0xffff, 0xfffe, 0x00ff, 0xff00, 0x0100]);
+                match self.below(4) {
+                    0 => (x & 0xffff_0000) | h,
+                    1 => (x & 0x0000_ffff) | (h << 16),
+                    2 => (x & 0xffff_ff00) | (h & 0xff),
+                    _ => (x & 0x00ff_ffff) | ((h & 0xff) << 24),
+                }
+            }
+            11 => {
+                // sparse / dense bit populations
+                let (x, y) = (self.u32(), self.u32());
+                match self.below(4) {
+                    0 => x & y,
+                    1 => x | y,
+                    2 => x & y & x.rotate_left(7),
+                    _ => x | y | x.rotate_left(7),
+                }
+            }
             0 | 1 => self.pick(&B32),
             2 => {
                 let b = self.pick(&B32);
